@@ -33,7 +33,7 @@ using Containers = TypeList<
     Optional<NonTrivial>, Result<ErrorEnum, int>, Result<ErrorEnum, std::string>,
     Result<ErrorU8, int>, Result<ErrorU64, std::vector<int>>,
     Optional<Optional<int>>, std::vector<Optional<std::string>>, std::map<std::string, Optional<int>>,
-    Result<ErrorEnum, Optional<int>>, Variant<Optional<int>, std::vector<std::string>>, std::vector<Variant<int, std::string>>,
+    Result<ErrorEnum, Result<ErrorU8, int>>, Result<ErrorEnum, Optional<int>>, Variant<Optional<int>, std::vector<std::string>>, std::vector<Variant<int, std::string>>,
     std::array<std::uint16_t, 0>, std::tuple<std::vector<std::uint8_t>, std::array<Inner, 0>>,
     std::vector<std::vector<std::int32_t>>, std::vector<std::uint16_t>, std::vector<char>, std::vector<EnumU8>,
     std::array<std::int64_t, 1>, std::array<char, 5>, std::array<EnumI32, 2>, std::map<EnumU8, std::vector<std::string>>,
